@@ -46,7 +46,7 @@ fn run_scenario(sc: &Value, t: &mut Tracer) {
 	};
 	// frz: the parameter sits beneath the track that gets paused (it freezes with it) - the sound's own volume
 	let frz = param == "sound_vol";
-	t.reset(json!({"param": param, "b": b, "pat": pat, "d": d, "from": from, "to": to, "paused": paused, "frz": frz, "src": sc["src"]}));
+	t.reset(json!({"param": param, "b": b, "pat": pat, "d": d, "from": from, "to": to, "paused": paused, "frz": frz, "dbl": sc["dbl"].as_bool().unwrap_or(false), "src": sc["src"]}));
 	let mut sim = Sim::new(Capacities::default(), MainTrackBuilder::new(), b, SR);
 	let mut send = sim.manager.add_send_track(SendTrackBuilder::new()).unwrap();
 	let mut a = sim.manager.add_sub_track(TrackBuilder::new().with_send(&send, Decibels(0.0))).unwrap();
@@ -76,6 +76,19 @@ fn run_scenario(sc: &Value, t: &mut Tracer) {
 	}
 	// the command under test (and, if asked for, a zero-length pause of the track in the same window)
 	let target = Decibels(to as f32 / 100.0);
+	if sc["dbl"].as_bool().unwrap_or(false) {
+		// a superseded command in the same window: another target, another duration
+		let decoy = Decibels(-3.0);
+		let dd = if d == 0 { 7 } else { d / 2 };
+		match param {
+			"track_vol" => a.set_volume(decoy, tw(dd)),
+			"send_vol" => send.set_volume(decoy, tw(dd)),
+			"route_vol" => a.set_send(&send, decoy, tw(dd)).unwrap(),
+			"main_vol" => sim.manager.main_track().set_volume(decoy, tw(dd)),
+			"sound_vol" => snd.set_volume(decoy, tw(dd)),
+			x => panic!("dbl not meaningful for {x}"),
+		}
+	}
 	match param {
 		"track_vol" => a.set_volume(target, tw(d)),
 		"send_vol" => send.set_volume(target, tw(d)),
